@@ -101,3 +101,17 @@ Definition ctor_spec : list (string * string) :=
    ("client_channel_create_tls", "spawn_tls_client_task"); ("server_create_tcp", "spawn_tcp_server_task");
    ("server_create_rtu", "spawn_rtu_server_task"); ("server_create_tls_impl", "spawn_tls_server_task_with_authz");
    ("server_create_tls_impl", "spawn_tls_server_task")].
+
+(* ---------- a caller-owned value list across calls ("a list is unchanged by being passed to a call") ---------- *)
+(* what a C caller does with ONE rodbus_bit_list / rodbus_register_list object: add a value, or pass the object to a
+   write-multiple call with the given start address. The k-th call must carry exactly the values added so far, in order:
+   passing the list to a call neither empties nor otherwise changes it (periodic write of a prepared block, retry after
+   TooManyRequests, one more value added between two calls). *)
+Inductive list_step (A : Type) := LsAdd (x : A) | LsCall (start : N).
+Arguments LsAdd {A}. Arguments LsCall {A}.
+Fixpoint list_calls_spec {A} (l : list A) (steps : list (list_step A)) : list (N * list A) :=
+  match steps with
+  | [] => []
+  | LsAdd x :: rest => list_calls_spec (l ++ [x]) rest
+  | LsCall s :: rest => (s, l) :: list_calls_spec l rest
+  end.
